@@ -82,6 +82,13 @@ def analyse_one(prog, module, clsname, rep):
                              witness={"history": "check_interrupt = an object with __call__ raising KeyboardInterrupt and __bool__ returning False: calculate returns normally"})
                 continue
             in_task_fn = c.fi in info.task_fis
+            if not in_task_fn and c.stack:
+                # a private helper method of the cube (`self._poll_interrupt()`) called from the task function itself, once and
+                # unconditionally w.r.t. the task: the consultation still happens inside the task
+                last = (getattr(c.fi, "qualname", "") or "").split(".")[-1]
+                caller = c.stack[-1][0]
+                if last.startswith("_") and not last.startswith("__") and caller in info.task_fis:
+                    in_task_fn = True
             ok = not extra_loops and only_none_guard and in_task_fn
             rep.check(ok, "R-C20-a", "%s@%d" % (c.fi.fq, c.line), cons, "one call, no loop, guarded only by `check_interrupt is not None`",
                       "callback is %s" % ("inside a loop of the task (consulted per row/entry, not per sub-cube)" if extra_loops else
